@@ -303,6 +303,31 @@ func vfC07Table(run *vfkit.Run, cs vfC07Case) {
 		run.Violation("C07/pending-entry-never-removed", "pending table not empty after every context ended", cs)
 		return
 	}
+	// A response whose routing has returned was handed to a reader or to the ordinary routes; the reader goroutine
+	// records it a moment after the hand-off. Wait for the accounting to be complete before judging (bounded; a
+	// response that is still unaccounted for after that is lost).
+	accounted := func() bool {
+		seen := map[int]bool{}
+		for _, rg := range regs {
+			rg.mu.Lock()
+			for _, s := range rg.got {
+				seen[s] = true
+			}
+			rg.mu.Unlock()
+		}
+		mu.Lock()
+		for s := range routed {
+			seen[s] = true
+		}
+		mu.Unlock()
+		for _, rc := range recs {
+			if rc.Op.Kind == "resp" && rc.Ret != 0 && !seen[rc.Op.Serial] {
+				return false
+			}
+		}
+		return true
+	}
+	vfWaitUntil(5*time.Second, accounted)
 	// where did each response surface?
 	where := map[int]vfIQOp{}
 	dup := ""
@@ -577,14 +602,23 @@ func vfC07EndToEnd(run *vfkit.Run, cs vfC07E2E) {
 			}
 		}
 		cancel()
-		// let a duplicate surface
-		vfWaitUntil(3*time.Second, func() bool { return !vfRouterBusy(router) })
-		nRoutes := 0
-		for _, h := range obs.Handled() {
-			if h == id {
-				nRoutes++
-			}
+		wantRoutes := 0
+		if cs.Dup {
+			wantRoutes = 1 // the duplicate is routed like any other packet
 		}
+		countRoutes := func() int {
+			n := 0
+			for _, h := range obs.Handled() {
+				if h == id {
+					n++
+				}
+			}
+			return n
+		}
+		// let the duplicate surface (it may still be in the receive buffer), then let routing settle
+		vfWaitUntil(5*time.Second, func() bool { return countRoutes() >= wantRoutes })
+		vfWaitUntil(3*time.Second, func() bool { return !vfRouterBusy(router) })
+		nRoutes := countRoutes()
 		if len(got) != 1 || got[0] != id {
 			k := "C07/e2e:response-not-on-request-channel:" + cs.Mode
 			if len(got) > 1 {
@@ -592,10 +626,6 @@ func vfC07EndToEnd(run *vfkit.Run, cs vfC07E2E) {
 			}
 			run.Violation(k, fmt.Sprintf("request %s answered while its bytes were being written: channel yielded %v, ordinary routes saw it %d times", id, got, nRoutes), cs)
 			return
-		}
-		wantRoutes := 0
-		if cs.Dup {
-			wantRoutes = 1 // the duplicate is routed like any other packet
 		}
 		if nRoutes != wantRoutes {
 			run.Violation("C07/e2e:duplicate-handling:"+cs.Mode, fmt.Sprintf("request %s: channel got it once, ordinary routes saw it %d times (expected %d)", id, nRoutes, wantRoutes), cs)
